@@ -166,7 +166,9 @@ def variant(res, name, flags):
     wd = os.path.join(res['dir'], f'var-{name}')
     shutil.rmtree(wd, ignore_errors=True)
     os.makedirs(wd)
-    errs = run_harness(res['cases'], out, wd, tuple(flags), per_proc=(40 if 'restart' in flags else None))
+    # restart / evict variants rebuild engines or processes all the time and their memory grows with every case (nothing is
+    # ever released by the engine): short-lived harness processes
+    errs = run_harness(res['cases'], out, wd, tuple(flags), per_proc=(40 if 'restart' in flags else 60 if 'evict' in flags else None))
     shutil.rmtree(wd, ignore_errors=True)
     json.dump(errs, open(done, 'w'))
     return out, errs
